@@ -364,8 +364,11 @@ func (m *mon) attribute(idx int, f File, whole outcome, skipSingles bool) (bad [
 	plainKey := key
 	key = func(o outcome, tag string) string {
 		// Divergences with a recognisable textual signature are named after it, whatever item they came from.
-		if (o.Class == "value-changed" || o.Class == "rejected-after-fmt") && strings.Contains(o.After, " is (not ") && !strings.Contains(o.Before, " is (not ") {
-			return o.Class + "/is-not-reprinted-as-is-(not"
+		if o.Class == "value-changed" || o.Class == "rejected-after-fmt" {
+			a, b := stripPreamble(o.After), stripPreamble(o.Before)
+			if (strings.Contains(a, " is (") && !strings.Contains(b, " is (")) || (strings.Contains(a, ") is ") && !strings.Contains(b, ") is ")) {
+				return o.Class + "/is-operator-reparenthesised"
+			}
 		}
 		return plainKey(o, tag)
 	}
@@ -437,7 +440,11 @@ func (m *mon) attribute(idx int, f File, whole outcome, skipSingles bool) (bad [
 			offL = append(offL, k)
 		}
 		sort.Strings(offL)
-		report(key(curO, it.Tag)+layoutSuffix(cur.Noise), witness{File: File{Name: plain.Name, Items: []Item{cur}}, Items: []int{0}, LayoutOff: offL, LayoutKept: cur.Noise,
+		k := key(curO, it.Tag)
+		if !strings.HasSuffix(k, "/sortable-string-list") {
+			k += layoutSuffix(cur.Noise)
+		}
+		report(k, witness{File: File{Name: plain.Name, Items: []Item{cur}}, Items: []int{0}, LayoutOff: offL, LayoutKept: cur.Noise,
 			Minimal: stripPreamble(File{Name: plain.Name, Items: []Item{cur}}.Source(nil)), Outcome: curO})
 	}
 	if found {
@@ -641,10 +648,10 @@ func TestC38(t *testing.T) {
 	r.Assumes = []string{
 		"asp evaluation through parse.InitParser + Parser.ParseReader on one shared BuildState (asplib); values leave through text_file(content = json(...)), targets through the parsed package (asplib.DumpTarget)",
 		"deps and visibility are compared as sets (Please gives their order and repetition no meaning); every other attribute is compared exactly",
-		"files are evaluated as BUILD files of a package whatever their name; //defs:d0..d3 are registered as built targets so that the real subinclude() runs",
+		"files are evaluated as BUILD files of a package whatever their name; //defs:d0..d7 are registered as built targets so that the real subinclude() runs",
 	}
 	m := newMon(r)
-	r.ForEach("files", r.Pick(1500, 60000), 8, func(i int, rng *rand.Rand) {
+	r.ForEach("files", r.Pick(1500, 20000), 8, func(i int, rng *rand.Rand) {
 		m.checkFile(i, GenFile(rng))
 	})
 	if !r.Replaying() {
